@@ -123,6 +123,38 @@ pub enum Cond {
 
 impl Cond {
     fn to_json(&self) -> Json {
+        // long left-leaning chains and towers of `!` are written flat (JSON readers limit nesting)
+        fn chain<'a>(c: &'a Cond, and: bool, out: &mut Vec<&'a Cond>) {
+            match (c, and) {
+                (Cond::And(a, b), true) | (Cond::Or(a, b), false) => {
+                    chain(a, and, out);
+                    out.push(b);
+                }
+                _ => out.push(c),
+            }
+        }
+        match self {
+            Cond::And(..) | Cond::Or(..) => {
+                let and = matches!(self, Cond::And(..));
+                let mut items = Vec::new();
+                chain(self, and, &mut items);
+                if items.len() >= 8 {
+                    return json!({ if and { "and_chain" } else { "or_chain" }: items.iter().map(|x| x.to_json()).collect::<Vec<_>>() });
+                }
+            }
+            Cond::Not(_) => {
+                let mut k = 0u64;
+                let mut cur = self;
+                while let Cond::Not(a) = cur {
+                    k += 1;
+                    cur = a;
+                }
+                if k >= 4 {
+                    return json!({"not_tower": [k, cur.to_json()]});
+                }
+            }
+            _ => {}
+        }
         match self {
             Cond::Leaf { field, op, lit } => json!({"leaf": [field, op.text(), lit.to_json()]}),
             Cond::And(a, b) => json!({"and": [a.to_json(), b.to_json()]}),
@@ -131,6 +163,24 @@ impl Cond {
         }
     }
     fn from_json(j: &Json) -> Option<Cond> {
+        for (key, and) in [("and_chain", true), ("or_chain", false)] {
+            if let Some(items) = j.get(key).and_then(|v| v.as_array()) {
+                let mut it = items.iter();
+                let mut c = Cond::from_json(it.next()?)?;
+                for x in it {
+                    let r = Cond::from_json(x)?;
+                    c = if and { Cond::And(Box::new(c), Box::new(r)) } else { Cond::Or(Box::new(c), Box::new(r)) };
+                }
+                return Some(c);
+            }
+        }
+        if let Some(t) = j.get("not_tower") {
+            let mut c = Cond::from_json(&t[1])?;
+            for _ in 0..t[0].as_u64()? {
+                c = Cond::Not(Box::new(c));
+            }
+            return Some(c);
+        }
         if let Some(l) = j.get("leaf") {
             return Some(Cond::Leaf {
                 field: l[0].as_str()?.to_string(),
@@ -392,6 +442,52 @@ pub fn gen_facts(rng: &mut Rng) -> BTreeMap<String, Lit> {
         }
     }
     f
+}
+
+/// A case whose rules have LONG conditions: left-leaning chains of 12..=96 leaves under && (a flat
+/// `a && b && c ...` as the parser builds it), some under ||, some wrapped in towers of `!`.
+/// All rules on one salience level, so they are evaluated side by side by the workers.
+pub fn gen_deep_case(rng: &mut Rng, schedules: u32) -> CaseSpec {
+    let n_rules = 2 + rng.below(15);
+    let facts = gen_facts(rng);
+    let mut rules = Vec::new();
+    for i in 0..n_rules {
+        let terms = *rng.pick(&[12usize, 16, 24, 32, 48, 64, 80, 96]);
+        let use_or = rng.chance(1, 4);
+        // make most chains TRUE on the facts (a chain that is false at its first leaf proves nothing):
+        // leaves are taken from a pool of generated leaves that hold (for &&) / fail (for ||)
+        let want = !use_or;
+        let mut pool: Vec<Cond> = Vec::new();
+        let mut tries = 0;
+        while pool.len() < 6 && tries < 400 {
+            tries += 1;
+            let l = gen_leaf(rng);
+            if l.eval(&facts) == Some(want) {
+                pool.push(l);
+            }
+        }
+        if pool.is_empty() {
+            pool.push(gen_leaf(rng));
+        }
+        let mut c = rng.pick(&pool).clone();
+        for k in 1..terms {
+            // the last leaf of one chain in three is a free one: the verdict then hangs on the
+            // deepest evaluation
+            let leaf = if k + 1 == terms && rng.chance(1, 3) { gen_leaf(rng) } else { rng.pick(&pool).clone() };
+            c = if use_or { Cond::Or(Box::new(c), Box::new(leaf)) } else { Cond::And(Box::new(c), Box::new(leaf)) };
+        }
+        if rng.chance(1, 6) {
+            for _ in 0..2 * (1 + rng.below(12)) {
+                c = Cond::Not(Box::new(c));
+            }
+        }
+        let mut actions = vec![Act::Set(format!("Out.r{:02}", i), Lit::I(1))];
+        if rng.bool() {
+            actions.push(Act::Mark);
+        }
+        rules.push(RuleSpec { name: format!("R{:02}", i), salience: 5, enabled: true, cond: c, actions });
+    }
+    CaseSpec { rules, facts, max_threads: *rng.pick(&[1usize, 2, 3, 4, 8, 16, 16]), min_rules_per_thread: 1 + rng.below(2), schedules, via_grl: false, engine_reused: false }
 }
 
 /// Random case: `n_rules` rules with salience ties. `small` = Miri-sized (no GRL text, shallow).
